@@ -200,6 +200,8 @@ type Config struct {
 	AfterLinearBlock func(s Step, pipe *pipeline.Pipeline)
 	ResolveCursor    pipeline.CursorResolver
 	DebugSnapshotFor []string
+	// PanicOnBlock > 0: the response sink panics (once) when the data message of that block is written.
+	PanicOnBlock uint64
 	// Tier2AfterBlock is called by an in-process tier2 job after each block it has processed (fault placement).
 	Tier2AfterBlock func(req *pbssinternal.ProcessRangeRequest, s Step)
 	// FailWrite > 0: the n-th object write below Dir (tier1 and its tier2 jobs together, in the order they happen) fails
@@ -270,12 +272,15 @@ type Result struct {
 	// object writes below Dir during the run; whether the injected write failure (Config.FailWrite) was reached
 	Writes        int
 	WriteFaultHit bool
+	SinkPanicked  bool // Config.PanicOnBlock was reached
 }
 
 type collector struct {
-	mu     sync.Mutex
-	res    *Result
-	closed bool
+	mu       sync.Mutex
+	res      *Result
+	closed   bool
+	panicAt  uint64
+	panicked bool
 }
 
 func (c *collector) Collect(respAny substreams.ResponseFromAnyTier) error {
@@ -293,6 +298,11 @@ func (c *collector) Collect(respAny substreams.ResponseFromAnyTier) error {
 			c.res.AfterError++
 		}
 		d := m.BlockScopedData
+		if c.panicAt != 0 && d.Clock.Number == c.panicAt && !c.panicked {
+			c.panicked = true
+			c.res.SinkPanicked = true
+			panic(fmt.Sprintf("response sink failed while writing block %d", d.Clock.Number))
+		}
 		dm := DataMsg{Num: d.Clock.Number, ID: d.Clock.Id, Cursor: d.Cursor, Final: d.FinalBlockHeight}
 		if d.Output != nil && d.Output.MapOutput != nil {
 			dm.Payload = string(d.Output.MapOutput.Value)
@@ -440,7 +450,7 @@ func Run(cfg Config) *Result {
 		WorkerFactory:              wf,
 		MaxJobsAhead:               10,
 	}
-	col := &collector{res: res}
+	col := &collector{res: res, panicAt: cfg.PanicOnBlock}
 	factory := func(ctx context.Context, h bstream.Handler, startBlockNum int64, stopBlockNum uint64, cursor string, _ bool, _ bool, _ *zap.Logger, _ ...stream.Option) (service.Streamable, error) {
 		var pipe *pipeline.Pipeline
 		switch x := h.(type) {
